@@ -7,9 +7,13 @@ package testdirectory
 // nothing in the package.
 
 // A-DIR: the directory invariant. Start establishes it; SetUsers / SetGroups /
-// SetControls callers must not pass nil entries, attributes or controls.
+// SetControls callers must not pass nil entries, attributes or controls, and the
+// user and group lists do not share a backing array.
 //@ pure entryWF(u *gldap.Entry) bool = u != nil && forall(j, 0, len(u.Attributes), u.Attributes[j] != nil)
-//@ pure dirOK(d *Directory) bool = d != nil && !isNilIface(d.logger) && forall(i, 0, len(d.users), entryWF(d.users[i])) && forall(i, 0, len(d.groups), entryWF(d.groups[i])) && ctlsOK(d.controls)
+//@ pure usersWF(d *Directory) bool = forall(i, 0, len(d.users), entryWF(d.users[i]))
+//@ pure groupsWF(d *Directory) bool = forall(i, 0, len(d.groups), entryWF(d.groups[i]))
+//@ pure listsApart(d *Directory) bool = cap(d.users) > 0 && cap(d.groups) > 0 ==> arrOf(d.users) != arrOf(d.groups)
+//@ pure dirOK(d *Directory) bool = d != nil && !isNilIface(d.logger) && usersWF(d) && groupsWF(d) && ctlsOK(d.controls) && listsApart(d)
 
 // ---- C19 ---------------------------------------------------------------------------------
 // "the bind DN is exactly the DN of a user entry whose first password value
@@ -33,3 +37,85 @@ package testdirectory
 //@   invariant resp != nil && resp.baseResponse != nil && resp.code == gldap.ResultInvalidCredentials && resp.messageID == msgID(r.message) && len(resp.controls) == 0
 //@   invariant !held(&d.mu) && !held(w.writerMu)
 //@   modifies nothing
+
+// ---- C20 ---------------------------------------------------------------------------------
+// A-MATCH: match is a function of its two strings (it is: regexp + strings
+// functions, no state). dnMatch is that function; nothing else is assumed
+// about it here. The statement's hypothesis "entry DNs are not substrings of
+// one another" is what makes dnMatch("(dn)", dn') coincide with dn == dn'.
+//@ abstract dnMatch(filter string, attr string) bool
+//@ func testdirectory.match
+//@   trusted
+//@   ensures  result0 == dnMatch(filter, attr) && isNilIface(err)
+//@   panics false
+//@   modifies nothing
+//@ method testdirectory.HelperT.Helper
+//@   params h HelperT
+//@   panics false
+//@   modifies nothing
+
+//@ func testdirectory.find
+//@   requires len(opt) == 0 && forall(i, 0, len(entries), entries[i] != nil)
+//@   ensures  result0 == (len(result1) > 0) && len(result1) == len(result2)
+//@   ensures  forall(k, 0, len(result1), 0 <= result1[k] && result1[k] < len(entries) && dnMatch(filter, entries[result1[k]].DN) && result2[k] == entries[result1[k]])
+//@   ensures  forall(k, 1, len(result1), result1[k-1] < result1[k])
+//@   ensures  forall(i, 0, len(entries), dnMatch(filter, entries[i].DN) ==> exists(k, 0, len(result1), result1[k] == i))
+//@   ensures  forall(i, 0, len(entries), dnMatch(filter, entries[i].DN) ==> len(result1) > 0)
+//@   ensures  len(result1) >= 1 ==> 0 <= result1[0] && result1[0] < len(entries) && dnMatch(filter, entries[result1[0]].DN) && result2[0] == entries[result1[0]]
+//@   ensures  len(result1) == 1 ==> forall(i, 0, len(entries), dnMatch(filter, entries[i].DN) ==> i == result1[0])
+//@   ensures  len(result1) > 1 ==> exists(i, 0, len(entries), exists(j, i + 1, len(entries), dnMatch(filter, entries[i].DN) && dnMatch(filter, entries[j].DN)))
+//@   panics false
+//@   modifies nothing
+//@   tags C20
+//@ loop 1
+//@   invariant len(matchIndexes) == len(matches) && !opts.withFirst
+//@   invariant forall(k, 0, len(matchIndexes), 0 <= matchIndexes[k] && matchIndexes[k] <= rangeindex && dnMatch(filter, entries[matchIndexes[k]].DN) && matches[k] == entries[matchIndexes[k]])
+//@   invariant forall(k, 1, len(matchIndexes), matchIndexes[k-1] < matchIndexes[k])
+//@   invariant forall(i, 0, rangeindex + 1, dnMatch(filter, entries[i].DN) ==> exists(k, 0, len(matchIndexes), matchIndexes[k] == i))
+//@   invariant (cap(matchIndexes) > 0 ==> fresh(arrOf(matchIndexes))) && (cap(matches) > 0 ==> fresh(arrOf(matches)))
+//@   modifies cell(int)@matchIndexes, cell(*gldap.Entry)@matches
+
+//@ pure hOK(w *gldap.ResponseWriter, r *gldap.Request) bool = w != nil && r != nil && wOK(w) && !held(w.writerMu) && reqOK(r)
+//@ pure addMsg(r *gldap.Request) *gldap.AddMessage = r.message.(*gldap.AddMessage)
+//@ pure userExists(d *Directory, dn string) bool = exists(i, 0, len(d.users), dnMatch(sprintf("(%s)", dn), d.users[i].DN))
+//@ func (*testdirectory.Directory).handleAdd$1
+//@   requires hOK(w, r) && dirOK(d) && !held(&d.mu)
+//@   ensures  typeIs(r.message, *gldap.AddMessage) && old(userExists(d, addMsg(r).DN)) ==> d.users == old(d.users) && forall(i, 0, len(d.users), d.users[i] == old(d.users[i])) && (G_lastok[w.writerMu] ==> G_lastcode[w.writerMu] == gldap.ResultEntryAlreadyExists)
+//@   ensures  typeIs(r.message, *gldap.AddMessage) && !old(userExists(d, addMsg(r).DN)) ==> len(d.users) == old(len(d.users)) + 1 && forall(i, 0, old(len(d.users)), d.users[i] == old(d.users[i])) && (G_lastok[w.writerMu] ==> G_lastcode[w.writerMu] == gldap.ResultSuccess)
+//@   ensures  typeIs(r.message, *gldap.AddMessage) && !old(userExists(d, addMsg(r).DN)) ==> fresh(d.users[old(len(d.users))]) && d.users[old(len(d.users))].DN == addMsg(r).DN
+//@   ensures  !typeIs(r.message, *gldap.AddMessage) ==> d.users == old(d.users) && forall(i, 0, len(d.users), d.users[i] == old(d.users[i]))
+//@   ensures  G_lastok[w.writerMu] ==> G_lasttag[w.writerMu] == gldap.ApplicationAddResponse && G_lastid[w.writerMu] == msgID(r.message)
+//@   ensures  usersWF(d)
+//@   ensures  groupsWF(d)
+//@   ensures  ctlsOK(d.controls) && listsApart(d) && !held(&d.mu) && !held(w.writerMu)
+//@   panics false
+//@   modifies Directory.users, cell(*gldap.Entry), all(ber.Packet), cell(*ber.Packet), G_bufdata, G_pktnew, G_held, G_acq, G_nframes, G_npend, G_werr, G_pendstr, G_flushed, G_lastok, G_lasttag, G_lastcode, G_lastid
+//@   tags C20
+
+//@ pure delMsg(r *gldap.Request) *gldap.DeleteMessage = r.message.(*gldap.DeleteMessage)
+//@ pure uMatch(d *Directory, dn string, i int) bool = dnMatch(sprintf("(%s)", dn), d.users[i].DN)
+//@ pure gMatch(d *Directory, dn string, i int) bool = dnMatch(sprintf("(%s)", dn), d.groups[i].DN)
+//@ pure usersSame(d *Directory) bool = d.users == old(d.users) && forall(i, 0, len(d.users), d.users[i] == old(d.users[i]))
+//@ pure groupsSame(d *Directory) bool = d.groups == old(d.groups) && forall(i, 0, len(d.groups), d.groups[i] == old(d.groups[i]))
+//@ pure uniqU(d *Directory, dn string, p int) bool = uMatch(d, dn, p) && forall(i, 0, len(d.users), i != p ==> !uMatch(d, dn, i))
+//@ pure uniqG(d *Directory, dn string, p int) bool = gMatch(d, dn, p) && forall(i, 0, len(d.groups), i != p ==> !gMatch(d, dn, i))
+//@ pure noU(d *Directory, dn string) bool = forall(i, 0, len(d.users), !uMatch(d, dn, i))
+//@ pure isDel(r *gldap.Request) bool = typeIs(r.message, *gldap.DeleteMessage)
+//@ func (*testdirectory.Directory).handleDelete$1
+//@   requires hOK(w, r) && dirOK(d) && !held(&d.mu)
+//@   ensures  isDel(r) ==> forall(p, 0, old(len(d.users)), old(uniqU(d, delMsg(r).DN, p)) ==> len(d.users) == old(len(d.users)) - 1 && groupsSame(d) && (G_lastok[w.writerMu] ==> G_lastcode[w.writerMu] == gldap.ResultSuccess))
+//@   ensures  isDel(r) ==> forall(p, 0, old(len(d.users)), old(uniqU(d, delMsg(r).DN, p)) ==> forall(i, 0, p, d.users[i] == old(d.users[i])))
+//@   ensures  isDel(r) ==> forall(p, 0, old(len(d.users)), old(uniqU(d, delMsg(r).DN, p)) ==> forall(i, p, len(d.users), d.users[i] == old(d.users[i+1])))
+//@   ensures  isDel(r) && old(noU(d, delMsg(r).DN)) ==> usersSame(d)
+//@   ensures  isDel(r) && old(noU(d, delMsg(r).DN)) ==> forall(p, 0, old(len(d.groups)), old(uniqG(d, delMsg(r).DN, p)) ==> len(d.groups) == old(len(d.groups)) - 1 && (G_lastok[w.writerMu] ==> G_lastcode[w.writerMu] == gldap.ResultSuccess))
+//@   ensures  isDel(r) && old(noU(d, delMsg(r).DN)) ==> forall(p, 0, old(len(d.groups)), old(uniqG(d, delMsg(r).DN, p)) ==> forall(i, 0, p, d.groups[i] == old(d.groups[i])))
+//@   ensures  isDel(r) && old(noU(d, delMsg(r).DN)) ==> forall(p, 0, old(len(d.groups)), old(uniqG(d, delMsg(r).DN, p)) ==> forall(i, p, len(d.groups), d.groups[i] == old(d.groups[i+1])))
+//@   ensures  typeIs(r.message, *gldap.DeleteMessage) && old(forall(i, 0, len(d.users), !uMatch(d, delMsg(r).DN, i)) && forall(i, 0, len(d.groups), !gMatch(d, delMsg(r).DN, i))) ==> usersSame(d) && groupsSame(d) && (G_lastok[w.writerMu] ==> G_lastcode[w.writerMu] == gldap.ResultNoSuchObject)
+//@   ensures  !typeIs(r.message, *gldap.DeleteMessage) ==> usersSame(d) && groupsSame(d)
+//@   ensures  G_lastok[w.writerMu] ==> G_lasttag[w.writerMu] == gldap.ApplicationDelResponse && G_lastid[w.writerMu] == msgID(r.message)
+//@   ensures  usersWF(d)
+//@   ensures  groupsWF(d)
+//@   ensures  ctlsOK(d.controls) && listsApart(d) && !held(&d.mu) && !held(w.writerMu)
+//@   panics false
+//@   modifies Directory.users, Directory.groups, cell(*gldap.Entry), all(ber.Packet), cell(*ber.Packet), G_bufdata, G_pktnew, G_held, G_acq, G_nframes, G_npend, G_werr, G_pendstr, G_flushed, G_lastok, G_lasttag, G_lastcode, G_lastid
+//@   tags C20
